@@ -122,14 +122,30 @@ Lemma alook_kids_n l id n c : alook l id = Some n -> In c (n_children n) -> In c
 Proof. intros H Hc. apply alook_in in H. unfold kids_n. apply in_flat_map. exists (id, n). split; [exact H|exact Hc]. Qed.
 
 (* ---- dereferencing: the list of references still to be taken away ---- *)
+Lemma deref_ctl : forall f s l, let s' := deref_children f s l in
+  locked s' = locked s /\ next_id s' = next_id s /\ rov s' = rov s /\ (forall x, In x (map fst (nodes s')) -> In x (map fst (nodes s))).
+Proof.
+  induction f as [|f IH]; intros s l; cbn [deref_children]; [repeat split; tauto|]. destruct l as [|id rest]; [repeat split; tauto|].
+  cbv zeta. destruct (alook (nrc s) id) as [c|].
+  - destruct (2 <? c); match goal with |- context [deref_children f ?S rest] => destruct (IH S rest) as (A & B & C & D) end; cbv zeta in *; cbn [set_store locked next_id rov nodes] in *; repeat split; assumption.
+  - set (s1 := set_store s (roots s) (adel (nodes s) id) (nrc s)).
+    assert (Hsub : forall x, In x (map fst (nodes s1)) -> In x (map fst (nodes s))) by (intros x Hx; cbn [s1 set_store nodes] in Hx; apply in_ids_adel in Hx; tauto).
+    destruct (get_node s id) as [n|].
+    + destruct (IH s1 (n_children n)) as (A & B & C & D). cbv zeta in *. destruct (IH (deref_children f s1 (n_children n)) rest) as (A2 & B2 & C2 & D2). cbv zeta in *.
+      cbn [s1 set_store locked next_id rov] in A, B, C. repeat split; try congruence. intros x Hx. apply Hsub, D, D2, Hx.
+    + destruct (IH s1 rest) as (A & B & C & D). cbv zeta in *. cbn [s1 set_store locked next_id rov] in A, B, C. repeat split; try congruence. intros x Hx. apply Hsub, D, Hx.
+Qed.
+
+(* [ovfree]: no stored node is shadowed by the commit overlay (the overlay only holds nodes that queued commits will create) *)
+Definition ovfree (s : mstate) : Prop := forall id, In id (map fst (nodes s)) -> alook (aov s) id = None.
 Lemma deref_J : forall f s pend more,
-  aov s = [] -> J s (pend ++ more) -> (length pend + weight (nodes s) <= f)%nat ->
+  ovfree s -> J s (pend ++ more) -> (length pend + weight (nodes s) <= f)%nat ->
   let s' := deref_children f s pend in
-  J s' more /\ (weight (nodes s') <= weight (nodes s))%nat /\ roots s' = roots s /\ aov s' = [].
+  J s' more /\ (weight (nodes s') <= weight (nodes s))%nat /\ roots s' = roots s /\ aov s' = aov s.
 Proof.
   induction f as [|f IH]; intros s pend more Ha HJ Hf.
-  - destruct pend; [|cbn in Hf; lia]. cbn [deref_children app] in *. split; [exact HJ|split; [apply le_n|split; [reflexivity|exact Ha]]].
-  - destruct pend as [|id rest]; [cbn [deref_children app] in *; split; [exact HJ|split; [apply le_n|split; [reflexivity|exact Ha]]]|]. cbn [deref_children]. cbn [app length] in HJ, Hf.
+  - destruct pend; [|cbn in Hf; lia]. cbn [deref_children app] in *. split; [exact HJ|split; [apply le_n|split; [reflexivity|reflexivity]]].
+  - destruct pend as [|id rest]; [cbn [deref_children app] in *; split; [exact HJ|split; [apply le_n|split; [reflexivity|reflexivity]]]|]. cbn [deref_children]. cbn [app length] in HJ, Hf.
     pose proof HJ as [H1 H2 H3 H4 H5 H6].
     assert (Hid : In id (map fst (nodes s))) by (apply H5; right; left; reflexivity).
     destruct (alook (nrc s) id) as [c|] eqn:Ec.
@@ -150,15 +166,15 @@ Proof.
         - intros i c' Hi. destruct (N.eq_dec i id) as [->|Hne].
           + rewrite Hci in Hi. destruct (N.ltb_spec 2 c); [injection Hi as <-; split; [lia|exact Hid]|discriminate].
           + rewrite (Hco i Hne) in Hi. exact (H6 i c' Hi). }
-      destruct (IH s1 rest more) as (G1 & G2 & G3 & G4); [rewrite Hav; exact Ha|exact HJ1|rewrite Hn; lia|].
-      fold s1. cbv zeta in *. rewrite Hn in G2. rewrite Hr in G3. split; [exact G1|split; [exact G2|split; [exact G3|exact G4]]].
+      destruct (IH s1 rest more) as (G1 & G2 & G3 & G4); [intros i Hi; rewrite Hav; apply Ha; rewrite <- Hn; exact Hi|exact HJ1|rewrite Hn; lia|].
+      fold s1. cbv zeta in *. rewrite Hn in G2. rewrite Hr in G3. split; [exact G1|split; [exact G2|split; [exact G3|congruence]]].
     + assert (Hone : cnt s id = 1) by (unfold cnt; rewrite Ec; reflexivity).
       pose proof (H4 id Hid) as Hcount. rewrite Hone in Hcount. cbn [count_occ] in Hcount. destruct (N.eq_dec id id) as [_|E]; [|contradiction].
       assert (Hz1 : ~ In id (kids_r (roots s))) by (apply (count_occ_not_In N.eq_dec); nlia).
       assert (Hz2 : ~ In id (kids_n (nodes s))) by (apply (count_occ_not_In N.eq_dec); nlia).
       assert (Hz3 : ~ In id (rest ++ more)) by (apply (count_occ_not_In N.eq_dec); nlia).
       destruct (in_ids_alook _ _ Hid) as [n Hn].
-      assert (Hg : get_node s id = Some n) by (unfold get_node; rewrite Ha; cbn [alook]; exact Hn).
+      assert (Hg : get_node s id = Some n) by (unfold get_node; rewrite (Ha id Hid); exact Hn).
       rewrite Hg.
       set (s1 := set_store s (roots s) (adel (nodes s) id) (nrc s)).
       assert (HJ1 : J s1 (n_children n ++ rest ++ more)).
@@ -177,10 +193,12 @@ Proof.
             * split; [apply H5; right; right; exact Hx|intros ->; exact (Hz3 Hx)].
         - intros i c' Hi. destruct (H6 i c' Hi) as [G1 G2]. split; [exact G1|]. apply in_ids_adel. split; [exact G2|]. intros ->. congruence. }
       pose proof (weight_adel (nodes s) id n H1 Hn) as Hw.
-      destruct (IH s1 (n_children n) (rest ++ more)) as (G1 & G2 & G3 & G4); [exact Ha|exact HJ1|cbn [s1 set_store nodes]; lia|].
+      destruct (IH s1 (n_children n) (rest ++ more)) as (G1 & G2 & G3 & G4); [intros i Hi; cbn [s1 set_store nodes aov] in *; apply in_ids_adel in Hi as [Hi _]; exact (Ha i Hi)|exact HJ1|cbn [s1 set_store nodes]; lia|].
       cbv zeta in *. set (s2 := deref_children f s1 (n_children n)) in *. cbn [s1 set_store nodes roots] in G2, G3.
-      destruct (IH s2 rest more) as (K1 & K2 & K3 & K4); [exact G4|exact G1|lia|].
-      cbv zeta in *. split; [exact K1|split; [lia|split; [congruence|exact K4]]].
+      assert (Hsub2 : forall x, In x (map fst (nodes s2)) -> In x (map fst (nodes s))).
+      { intros x Hx. destruct (deref_ctl f s1 (n_children n)) as (_ & _ & _ & D). cbv zeta in D. apply D in Hx. cbn [s1 set_store nodes] in Hx. apply in_ids_adel in Hx. tauto. }
+      destruct (IH s2 rest more) as (K1 & K2 & K3 & K4); [intros i Hi; rewrite G4; cbn [s1 set_store aov]; exact (Ha i (Hsub2 i Hi))|exact G1|lia|].
+      cbv zeta in *. split; [exact K1|split; [lia|split; [congruence|rewrite K4, G4; reflexivity]]].
 Qed.
 
 (* ---- inserting: one item at a time ---- *)
@@ -355,6 +373,22 @@ Proof.
   - cbn [set_store roots nodes nrc]. destruct (alook (nrc s) id); rewrite <- IH; reflexivity.
 Qed.
 
+(* ---- a whole insertion, from the facts about its item list ---- *)
+Lemma insert_J_items cf fuel s k root items :
+  J s [] -> alook (roots s) k = None -> Forall node_item items -> citems (n_children root) items -> ins_ok s items ->
+  let s' := fold_left (apply_item cf fuel) (MRootSet k root :: items) s in
+  J s' [] /\ (forall x, In x (map fst (nodes s')) <-> In x (map fst (nv items)) \/ In x (map fst (nodes s))).
+Proof.
+  intros HJ Hk Hkind Hshape Hok. cbn [fold_left apply_item]. rewrite Hk.
+  rewrite (fold_nodes_set_store cf fuel items Hkind). set (s2 := fold_left (apply_item cf fuel) items s).
+  destruct (proj2 (items_J cf fuel) (n_children root) items Hshape s [] HJ Hok) as [HJ2 [R1 R2]]. cbv zeta in HJ2, R1, R2. fold s2 in HJ2, R1, R2.
+  rewrite app_nil_r in HJ2.
+  assert (Hk2 : alook (roots s2) k = None) by (rewrite R1; exact Hk).
+  destruct (rootset_J cf fuel s2 k root HJ2 Hk2) as [G1 G2]. cbv zeta in G1, G2.
+  cbn [apply_item] in G1, G2. rewrite Hk2 in G1, G2. rewrite R1 in G1.
+  cbv zeta. split; [exact G1|]. cbn [set_store nodes]. exact R2.
+Qed.
+
 (* ---- a whole insertion ---- *)
 Theorem insert_J cf fuel s k d cs nx ids nx' items :
   J s [] -> alook (roots s) k = None ->
@@ -407,12 +441,12 @@ Proof.
 Qed.
 
 Theorem deref_root_J cf fuel s k n0 c :
-  J s [] -> aov s = [] -> alook (roots s) k = Some (n0, c) ->
+  J s [] -> ovfree s -> alook (roots s) k = Some (n0, c) ->
   (length (n_children n0) + weight (nodes s) <= fuel)%nat ->
-  let s' := apply_item cf fuel s (MDerefChildren k (n_children n0)) in J s' [] /\ aov s' = [].
+  let s' := apply_item cf fuel s (MDerefChildren k (n_children n0)) in J s' [] /\ aov s' = aov s.
 Proof.
   intros HJ Ha Hk Hf. cbn [apply_item]. rewrite Hk. destruct (m_rc cf && (1 <? c)).
-  - cbv zeta. split; [apply (rootcount_J s [] k n0 c (c - 1) HJ Hk)|exact Ha].
+  - cbv zeta. split; [apply (rootcount_J s [] k n0 c (c - 1) HJ Hk)|reflexivity].
   - pose proof HJ as [H1 H2 H3 H4 H5 H6].
     set (s1 := set_store s (adel (roots s) k) (nodes s) (nrc s)).
     assert (HJ1 : J s1 (n_children n0 ++ [])).
@@ -422,7 +456,7 @@ Proof.
       - intros x [Hx|Hx]; apply H5; left.
         + apply (count_occ_In N.eq_dec). pose proof (occ_kids_r_adel (roots s) k n0 c x H2 Hk). apply (count_occ_In N.eq_dec) in Hx. nlia.
         + rewrite app_nil_r in Hx. eapply in_kids_r; eassumption. }
-    destruct (deref_J fuel s1 (n_children n0) [] Ha HJ1) as (G1 & _ & _ & G4); [exact Hf|]. cbv zeta in *. split; assumption.
+    destruct (deref_J fuel s1 (n_children n0) [] Ha HJ1) as (G1 & _ & _ & G4); [exact Hf|]. cbv zeta in *. split; [exact G1|exact G4].
 Qed.
 
 (* ---- what the invariant gives ---- *)
@@ -451,19 +485,6 @@ Proof.
 Qed.
 
 (* ---- whole transactions on a store with nothing in flight ---- *)
-Lemma deref_ctl : forall f s l, let s' := deref_children f s l in
-  locked s' = locked s /\ next_id s' = next_id s /\ rov s' = rov s /\ (forall x, In x (map fst (nodes s')) -> In x (map fst (nodes s))).
-Proof.
-  induction f as [|f IH]; intros s l; cbn [deref_children]; [repeat split; tauto|]. destruct l as [|id rest]; [repeat split; tauto|].
-  cbv zeta. destruct (alook (nrc s) id) as [c|].
-  - destruct (2 <? c); match goal with |- context [deref_children f ?S rest] => destruct (IH S rest) as (A & B & C & D) end; cbv zeta in *; cbn [set_store locked next_id rov nodes] in *; repeat split; assumption.
-  - set (s1 := set_store s (roots s) (adel (nodes s) id) (nrc s)).
-    assert (Hsub : forall x, In x (map fst (nodes s1)) -> In x (map fst (nodes s))) by (intros x Hx; cbn [s1 set_store nodes] in Hx; apply in_ids_adel in Hx; tauto).
-    destruct (get_node s id) as [n|].
-    + destruct (IH s1 (n_children n)) as (A & B & C & D). cbv zeta in *. destruct (IH (deref_children f s1 (n_children n)) rest) as (A2 & B2 & C2 & D2). cbv zeta in *.
-      cbn [s1 set_store locked next_id rov] in A, B, C. repeat split; try congruence. intros x Hx. apply Hsub, D, D2, Hx.
-    + destruct (IH s1 rest) as (A & B & C & D). cbv zeta in *. cbn [s1 set_store locked next_id rov] in A, B, C. repeat split; try congruence. intros x Hx. apply Hsub, D, Hx.
-Qed.
 Lemma apply_ctl cf fuel s it : let s' := apply_item cf fuel s it in locked s' = locked s /\ next_id s' = next_id s /\ rov s' = rov s.
 Proof.
   destruct it; cbn [apply_item]; cbv zeta; try (repeat split; reflexivity).
@@ -697,10 +718,11 @@ Proof.
     assert (HnB : nodes B = nodes s) by (destruct HsB as (_ & Hn & _); symmetry; exact Hn).
     assert (Hfuel : (length (n_children r) + weight (nodes B) <= fuel)%nat).
     { unfold fuel. rewrite HnB. destruct Hse as (_ & A2 & _). rewrite A2. cbn [S nodes its fold_right]. pose proof (weight_le (nodes s)). lia. }
-    destruct (deref_root_J cf fuel B k r c HJB HaB HkB Hfuel) as [G1 G2]. cbv zeta in G1, G2. cbn [clean_ov mc_id mc_items c0 its].
+    assert (HoB : ovfree B) by (intros i _; rewrite HaB; reflexivity).
+    destruct (deref_root_J cf fuel B k r c HJB HoB HkB Hfuel) as [G1 G2]. cbv zeta in G1, G2. cbn [clean_ov mc_id mc_items c0 its].
     destruct (apply_ctl cf fuel B (MDerefChildren k (n_children r))) as (Al & Ai & Ar). cbv zeta in Al, Ai, Ar.
     split.
-    + split; [rewrite apply_queue; reflexivity|]. split; [rewrite Ar; unfold B, with_queue; cbn [rov]; rewrite Hr0; exact Dr|]. split; [exact G2|].
+    + split; [rewrite apply_queue; reflexivity|]. split; [rewrite Ar; unfold B, with_queue; cbn [rov]; rewrite Hr0; exact Dr|]. split; [rewrite G2; exact HaB|].
       rewrite Al. unfold B, with_queue. cbn [locked]. rewrite Hl0. exact Dl.
     + split; [exact G1|]. intros id Hid. apply apply_deref_nodes_sub in Hid. rewrite HnB in Hid. rewrite Ai. unfold B, with_queue. cbn [next_id]. rewrite Hi0. exact (Hb id Hid).
   - cbn [N.eqb negb]. intros E. injection E as <- <-. rewrite mprocess_empty by exact Dq. split; [repeat split; assumption|split; assumption].
@@ -713,16 +735,24 @@ Inductive forest_ok (s : mstate) : uop -> Prop :=
 | ok_deref k : forest_ok s (UDerefTree k).
 Inductive forest_run (cf : mcfg) : mstate -> Prop :=
 | run_init : forest_run cf minit
-| run_step s op : forest_run cf s -> forest_ok s op -> forest_run cf (tx1 cf s op).
+| run_step s op : forest_run cf s -> forest_ok s op -> forest_run cf (tx1 cf s op)
+| run_reopen s : forest_run cf s -> forest_run cf (mreopen cf s)      (* drop + open *)
+| run_crash s : forest_run cf s -> forest_run cf (mcrash s).          (* process crash + open *)
 
 Lemma J_init : J minit [].
 Proof. constructor; cbn; try constructor; try tauto; try discriminate. Qed.
 
 Theorem forest_inv cf s : m_append_only cf = false -> forest_run cf s -> drained s /\ FInv s.
 Proof.
-  intros Hao Hr. induction Hr as [|s op Hr [IHd IHf] Hok].
+  intros Hao Hr. induction Hr as [|s op Hr [IHd IHf] Hok|s Hr [IHd IHf]|s Hr [IHd IHf]].
   - split; [repeat split; reflexivity|]. split; [exact J_init|]. intros id [].
   - destruct Hok as [k t Hk Hex|k|k]; [apply tx_insert|apply tx_ref|apply tx_deref]; assumption.
+  - (* nothing is queued: the reopened store is the store *)
+    destruct IHd as (Dq & Dr & Da & Dl). destruct IHf as [HJ Hb]. unfold mreopen. cbn [mqueue]. rewrite Dq. cbn [length Nat.mul mprocess_all].
+    split; [repeat split; reflexivity|]. split; [|exact Hb].
+    eapply J_store_eq; [|exact HJ]. unfold store_eq. cbn. repeat split; reflexivity.
+  - destruct IHf as [HJ Hb]. unfold mcrash. split; [repeat split; reflexivity|]. split; [|exact Hb].
+    eapply J_store_eq; [|exact HJ]. unfold store_eq. cbn. repeat split; reflexivity.
 Qed.
 
 Theorem all_dereferenced_is_empty cf s : m_append_only cf = false -> forest_run cf s -> roots s = [] ->
